@@ -81,6 +81,16 @@ fn main() {
                 None => println!("AGREE Locale::from_bytes(b\"{}\")", esc(&v)),
             }
         }
+        "show" => {
+            // show what the real library does with a locale string (panics are caught and reported)
+            let v = unhex(&args[2]);
+            let r = std::panic::catch_unwind(|| Locale::from_bytes(&v).map(|l| l.to_string()));
+            match r {
+                Ok(Ok(s)) => println!("Locale::from_bytes(b\"{}\") = Ok(\"{}\")", esc(&v), s),
+                Ok(Err(e)) => println!("Locale::from_bytes(b\"{}\") = Err({:?})", esc(&v), e),
+                Err(_) => println!("Locale::from_bytes(b\"{}\") PANICKED", esc(&v)),
+            }
+        }
         "search" => {
             let what = args[2].as_str();
             let seed: u64 = args.get(3).and_then(|s| s.parse().ok()).unwrap_or(0);
